@@ -22,6 +22,7 @@ type Obligation struct {
 	Hyp     *Term
 	Goal    *Term
 	WantSat bool // cover obligations: the query Hyp (without goal negation) must be SAT
+	PreHyp  *Term // consistency covers: Hyp may be UNSAT only if PreHyp (the state before the call) already is
 
 	Status      string // proved failed unknown sat(unsat for cover) simplified
 	Solver      string
